@@ -828,3 +828,38 @@ Definition C01_text_pratt_no_panic_on_parsed_full : Prop := forall text s' t fir
 Definition C01_text_peg_no_panic_full : Prop := forall text,
   Blots.Peg.parse Blots.gen.Grammar.blots_grammar (Blots.Peg.peg_fuel text) Blots.gen.Grammar.PG_input text
     <> Blots.Peg.Panic.
+
+(* of the arms listed under (1): the ones that depend on the REGENERATED operator table only are excluded for EVERY
+   token stream, by exhaustion over the 34 operator rules (bound = gen/PrecTable.v, re-checked when it changes):
+   `ops.get(rule)` is never None; every rule the table calls prefix / infix has its .map_prefix / .map_infix arm;
+   the postfix rules are exactly the four map_postfix has arms for *)
+Require Blots.proofs.PrattFuelAllArms.
+Theorem C01_pratt_table_total : forall r, Blots.Pratt.ops_get Blots.Pratt.impl_table r <> None.
+Proof. exact Blots.proofs.PrattFuelAllArms.impl_table_total. Qed.
+Check C01_pratt_table_total : forall r, Blots.Pratt.ops_get Blots.Pratt.impl_table r <> None.
+Print Assumptions C01_pratt_table_total.
+Theorem C01_pratt_closure_arms_unreachable :
+  (forall r p x, Blots.Pratt.ops_get Blots.Pratt.impl_table r = Some (Blots.PrattTypes.Prefix, p) ->
+                 Blots.Pratt.map_prefix Blots.gen.PrecTable.prefix_map r x <> Outcome.Panic) /\
+  (forall r a p l x, Blots.Pratt.ops_get Blots.Pratt.impl_table r = Some (Blots.PrattTypes.Infix a, p) ->
+                     Blots.Pratt.map_infix Blots.gen.PrecTable.infix_map l r x <> Outcome.Panic).
+Proof.
+  split; [exact Blots.proofs.PrattFuelAllArms.map_prefix_impl_no_panic
+         |exact Blots.proofs.PrattFuelAllArms.map_infix_impl_no_panic].
+Qed.
+Check C01_pratt_closure_arms_unreachable :
+  (forall r p x, Blots.Pratt.ops_get Blots.Pratt.impl_table r = Some (Blots.PrattTypes.Prefix, p) ->
+                 Blots.Pratt.map_prefix Blots.gen.PrecTable.prefix_map r x <> Outcome.Panic) /\
+  (forall r a p l x, Blots.Pratt.ops_get Blots.Pratt.impl_table r = Some (Blots.PrattTypes.Infix a, p) ->
+                     Blots.Pratt.map_infix Blots.gen.PrecTable.infix_map l r x <> Outcome.Panic).
+Print Assumptions C01_pratt_closure_arms_unreachable.
+Theorem C01_pratt_postfix_rules : forall r p,
+  Blots.Pratt.ops_get Blots.Pratt.impl_table r = Some (Blots.PrattTypes.Postfix, p) ->
+  In r [Blots.PrattTypes.R_factorial; Blots.PrattTypes.R_access; Blots.PrattTypes.R_dot_access;
+        Blots.PrattTypes.R_call_list].
+Proof. exact Blots.proofs.PrattFuelAllArms.impl_postfix_rules. Qed.
+Check C01_pratt_postfix_rules : forall r p,
+  Blots.Pratt.ops_get Blots.Pratt.impl_table r = Some (Blots.PrattTypes.Postfix, p) ->
+  In r [Blots.PrattTypes.R_factorial; Blots.PrattTypes.R_access; Blots.PrattTypes.R_dot_access;
+        Blots.PrattTypes.R_call_list].
+Print Assumptions C01_pratt_postfix_rules.
